@@ -29,7 +29,7 @@ const (
 
 var ErrTooBig = errors.New("does not fit a length field")
 
-func be16(v int) []byte  { return []byte{byte(v >> 8), byte(v)} }
+func be16(v int) []byte    { return []byte{byte(v >> 8), byte(v)} }
 func be32(v uint32) []byte { return []byte{byte(v >> 24), byte(v >> 16), byte(v >> 8), byte(v)} }
 func be64(v uint64) []byte {
 	return []byte{byte(v >> 56), byte(v >> 48), byte(v >> 40), byte(v >> 32), byte(v >> 24), byte(v >> 16), byte(v >> 8), byte(v)}
@@ -238,11 +238,13 @@ func Encode(m Msg, l Lib) ([]byte, error) {
 
 type parseErr struct{ s string }
 
-func (e parseErr) Error() string { return e.s }
+func (e parseErr) Error() string            { return e.s }
 func perr(f string, a ...interface{}) error { return parseErr{fmt.Sprintf(f, a...)} }
 
-func u16(b []byte) int    { return int(b[0])<<8 | int(b[1]) }
-func u32(b []byte) uint32 { return uint32(b[0])<<24 | uint32(b[1])<<16 | uint32(b[2])<<8 | uint32(b[3]) }
+func u16(b []byte) int { return int(b[0])<<8 | int(b[1]) }
+func u32(b []byte) uint32 {
+	return uint32(b[0])<<24 | uint32(b[1])<<16 | uint32(b[2])<<8 | uint32(b[3])
+}
 func u64(b []byte) uint64 { return uint64(u32(b))<<32 | uint64(u32(b[4:])) }
 
 func allZero(b []byte) bool {
